@@ -7,7 +7,8 @@ CONSTANTS MaxLen
 \* caret, two digits (8 is special), an escape letter, two reserved characters, two code page letters, plain ASCII,
 \* Latin-1 high, Cyrillic, a double-byte character whose Shift-JIS trail byte is 0x5E, a single-byte half-width katakana of
 \* page 932 (whose byte lies in the lead-byte range of the other double-byte pages), a character in no code page
-Alphabet == <<94, 49, 56, 118, 124, 42, 76, 67, 120, 233, 1096, 65295, 65393, 128512>>
+\* (178 = superscript two: a non-ASCII character of the Unicode numeric categories, which is not a colour digit)
+Alphabet == <<94, 49, 56, 118, 124, 42, 76, 67, 120, 233, 178, 1096, 65295, 65393, 128512>>
 RECURSIVE Strings(_)
 Strings(n) == IF n = 0 THEN {<<>>} ELSE LET prev == Strings(n - 1) IN
               prev \cup {Append(s, Alphabet[i]) : s \in {t \in prev : Len(t) = n - 1}, i \in 1..Len(Alphabet)}
